@@ -202,7 +202,6 @@ func c06(p *core.Program, r *core.Report) {
 		why := ""
 		setTop := p.SSAFunc(wktRel, "(*layoutStack).setTopLayout")
 		setIf := p.SSAFunc(wktRel, "(*wktLex).setLayoutIfNoLayout")
-		top := p.SSAFunc(wktRel, "(*layoutStack).top")
 		for _, fn := range fns {
 			for _, b := range fn.Blocks {
 				for _, in := range b.Instrs {
@@ -227,8 +226,8 @@ func c06(p *core.Program, r *core.Report) {
 				}
 			}
 		}
-		if setTop == nil || setIf == nil || top == nil {
-			ok, why = false, "setTopLayout / setLayoutIfNoLayout / top no longer resolve"
+		if setTop == nil || setIf == nil {
+			ok, why = false, "setTopLayout / setLayoutIfNoLayout no longer resolve"
 		} else {
 			for _, e := range p.CallGraph().Nodes[setTop].In {
 				if e.Caller.Func != setIf {
